@@ -121,7 +121,8 @@ class Scheduler(interpose.Listener):
     def vsleep(self, delay):
         """Sleep in virtual time (throttle): the client wakes when the virtual clock reaches now + delay."""
         c = self.me()
-        c.wake = self.vclock.now + delay
+        # a real sleep always lets some time pass, even when the requested delay is lost in float rounding
+        c.wake = max(self.vclock.now + delay, self.vclock.now + 1e-6)
         self.yield_point('vsleep', 'vsleep')
 
     @staticmethod
